@@ -98,6 +98,17 @@ def gen(rng, idx, tier):
     if rng.random() < 0.1:
         ops.append({"at": close.get("at", span) + rng.choice([0.0, 0.005, 1.0]), "op": "close", "id": oid})
         oid += 1
+    if kind != "actisense" and rng.random() < 0.12:
+        # close() while a multi-frame send() is suspended in drain() by flow control
+        ai = max(i for i, e in enumerate(plan["script"]) if e["a"] == "accept")
+        e = plan["script"][ai]
+        e.setdefault("w", {})["pause"] = {str(i): rng.choice([0.05, 0.5]) for i in range(0, 12)}
+        e["w"].pop("fail_at", None)
+        d0 = rng.choice([0.2, 1.0])
+        ops = [o for o in ops if o["op"] != "close"]
+        ops.append({"on_accept": ai, "d": d0, "op": "send", "msg": session.sendable(rng, multi=True), "id": oid})
+        ops.append({"on_accept": ai, "d": d0 + rng.choice([0.0, 0.001, 0.06, 0.3]), "op": "close", "id": oid + 1})
+        oid += 2
     plan["ops"] = ops
     return plan
 
